@@ -345,6 +345,24 @@ macro_rules! impl_tryfrom_float {
 impl_tryfrom_float!(f32);
 impl_tryfrom_float!(f64);
 
+/// Parse a NR1 (plain integer) literal with overflow detection.
+///
+/// `lexical_core::parse` (0.8) wraps around silently when the literal has as many digits as
+/// the largest value of the type (for example `486` parsed as `u8` gives `230`), so the
+/// checked parser of `core` is used for the integer fast path instead.
+fn parse_nr1<T>(value: &[u8]) -> Result<T, lexical_core::Error>
+where
+    T: core::str::FromStr<Err = core::num::ParseIntError>,
+{
+    use core::num::IntErrorKind;
+    let s = str::from_utf8(value).map_err(|_| lexical_core::Error::InvalidDigit(0))?;
+    s.parse::<T>().map_err(|e| match e.kind() {
+        IntErrorKind::PosOverflow => lexical_core::Error::Overflow(0),
+        IntErrorKind::NegOverflow => lexical_core::Error::Underflow(0),
+        _ => lexical_core::Error::InvalidDigit(0),
+    })
+}
+
 // TODO: Shitty way of rounding integers
 macro_rules! impl_tryfrom_integer {
     ($from:ty, $intermediate:ty) => {
@@ -353,7 +371,7 @@ macro_rules! impl_tryfrom_integer {
 
             fn try_from(value: Token) -> Result<Self, Self::Error> {
                 match value {
-                    Token::DecimalNumericProgramData(value) => lexical_core::parse::<$from>(value)
+                    Token::DecimalNumericProgramData(value) => parse_nr1::<$from>(value)
                         .or_else(|e| {
                             if matches!(e, lexical_core::Error::InvalidDigit(_)) {
                                 let value = lexical_core::parse::<$intermediate>(value)?;
